@@ -54,5 +54,8 @@ def run(ctx) -> None:
             exitcode.check_exit_contract(ctx, f, "ERR4")
     pre.check_len_constraint_sites(ctx, "PRE-LEN", in_generators)
     anchor.check_anchor_agreement(ctx, "ANCHOR-ATOMS")
+    ctx.rule("SHAPE-GUARD", "the front end rejects lists of optional items beneath a top-level Optional, which all generators assume (shared with C06)", floor=1)
+    from .c06 import check_shape_guard
+    check_shape_guard(ctx, "SHAPE-GUARD")
     from .c18 import _check_revm_preconditions
     _check_revm_preconditions(ctx)
